@@ -65,7 +65,12 @@ class DiscInfo(productmd.common.MetadataBase):
         self._assert_type("disc_numbers", [list])
         if self.disc_numbers == ["ALL"]:
             return
-        # TODO: check if disc numbers are integers
+        for i in self.disc_numbers:
+            try:
+                int(str(i))
+            except ValueError:
+                raise ValueError("%s: Field 'disc_numbers' must be ['ALL'] or a list of integers: %s"
+                                 % (self.__class__.__name__, self.disc_numbers))
 
     def _get_parser(self):
         return []
